@@ -63,6 +63,10 @@ class Case:
 # running the two sides
 # --------------------------------------------------------------------------
 
+# per-case watchdog of the Rust harness (milliseconds); a module with heavy cases raises it (WATCHDOG_MS)
+WATCHDOG_MS = 8000
+
+
 def _run_chunk(exe, lines, idx, label, per_case_timeout):
     """Run one shard; survive a hang or an abort of the process by recording
     HANG / CRASH for the case that caused it and resuming after it."""
@@ -78,7 +82,7 @@ def _run_chunk(exe, lines, idx, label, per_case_timeout):
         budget = 60 + per_case_timeout * (n - start)
         try:
             p = subprocess.run([exe, path], stdout=subprocess.PIPE, stderr=subprocess.DEVNULL,
-                               timeout=budget)
+                               timeout=budget, env=dict(os.environ, BLH_CASE_MS=str(WATCHDOG_MS)))
             out = p.stdout.decode("utf-8", "replace").split("\n")
             if out and out[-1] == "":
                 out.pop()
@@ -265,6 +269,8 @@ def run_check(mod, tier, seed):
     prop = mod.PROPERTY
     rng = random.Random(seed)
     profiles = getattr(mod, "PROFILES", ["dev"])
+    global WATCHDOG_MS
+    WATCHDOG_MS = getattr(mod, "WATCHDOG_MS", 8000)
     ok_coq, ok_drv, ok_h, logs = ensure_built(profiles)
     lines_out = []
     violations = []          # (kind, text, replay payload)
